@@ -81,6 +81,8 @@ pub trait Machine {
     /// lookup, translate on miss, call — exactly what Core::run_code_block does with feature jit
     fn engine_jit_block(&mut self) -> u8;
     fn jit_lookup(&self, ip: usize) -> bool;
+    /// translate the block at ip (no lookup, no execution)
+    fn jit_translate(&mut self, ip: usize) -> usize;
     fn clock(&mut self, clocks: usize);
     // ---- CPU state
     fn regs(&self) -> Regs;
@@ -195,7 +197,12 @@ macro_rules! impl_machine {
                 let core = $krate::emulator::Core::with_code_block(code.into_boxed_slice());
                 Box::new($name { core: Box::new(core) })
             }
-            pub fn set_arena_size(size: usize) {
+            pub fn set_fast_mm(on: bool) {
+    gb_jit::verif::set_fast_mm(on);
+    gb_int::verif::set_fast_mm(on);
+}
+
+pub fn set_arena_size(size: usize) {
                 $krate::verif::set_arena_size(size);
             }
         }
@@ -238,6 +245,10 @@ macro_rules! impl_machine {
             }
             fn jit_lookup(&self, ip: usize) -> bool {
                 self.core.cache.get_address_for_ip(ip).is_some()
+            }
+            fn jit_translate(&mut self, ip: usize) -> usize {
+                let core = &mut *self.core;
+                core.cache.translate_code_block(&core.memory.rom, ip, core.memory.as_ptr())
             }
             fn clock(&mut self, clocks: usize) {
                 self.core.memory.run_clock_cycles($krate::timing::ClockCycles(clocks));
@@ -409,6 +420,11 @@ pub fn new_machine(jit: bool, fd: i32) -> Result<Box<dyn Machine>, String> {
     } else {
         IntMachine::from_fd(fd)
     }
+}
+
+pub fn set_fast_mm(on: bool) {
+    gb_jit::verif::set_fast_mm(on);
+    gb_int::verif::set_fast_mm(on);
 }
 
 pub fn set_arena_size(size: usize) {
